@@ -67,6 +67,15 @@ def cases(ctx):
                 yield {"k": "chain", "seed": seed.hex(), "steps": steps, "neuter_at": 300, "deep": True}
                 idxs = [r.getrandbits(32) for _ in range(255)]
                 yield {"k": "chain", "seed": seed.hex(), "steps": [{"path": path_str(r, idxs), "idxs": idxs}], "neuter_at": 300, "deep": True}
+    for i in range(60 if t else 3):
+        kx = r.randrange(1, ec.N)
+        yield {"k": "ctor", "key": "%064x" % kx, "chain": gen.rbytes(r, 32).hex(), "depth": r.choice([0, 1, 2, 5, 255]), "index": ridx(r), "fp": (None if r.random() < 0.6 else r.choice(["00000000", gen.rbytes(r, 4).hex()]))}
+    for i in range(40 if t else 2):
+        bad = r.choice([2**31, 2**31 + 1, 2**32 - 1, 2**32, 2**32 + 5, 2**32 + 2**31 - 1, 2**33, 2**63, 2**64, 2**64 + 7, 10**30])
+        good = [ridx(r) % 2**31 for _ in range(r.randrange(0, 3))]
+        comp = [str(g) for g in good] + [str(bad) + r.choice(["", "'", "h"])]
+        r.shuffle(comp)
+        yield {"k": "badpath", "seed": gen.rbytes(r, 32).hex(), "path": "m/" + "/".join(comp)}
     for i in range(400 if t else 2):
         seed = gen.rbytes(r, 32)
         m = bip32.master(seed)
@@ -201,6 +210,31 @@ def judge(ctx, case):
                 last = ps[len(expect)] if len(ps) > len(expect) else None
                 if last is None or "err" not in last:
                     ctx.viol("hardened derivation from an extended public key is not refused with an error", {"resp": str(last)[:200]})
+    elif k == "ctor":
+        ctx.hit("ctor")
+        kx = int(case["key"], 16)
+        fp = bytes.fromhex(case["fp"]) if case["fp"] else b"\x00" * 4
+        for kind in ("new_prv", "new_pub"):
+            node = bip32.Node(kx if kind == "new_prv" else None, ec.mul_g(kx), bytes.fromhex(case["chain"]), case["depth"], case["index"], fp)
+            start = {"key": case["key"], "pub": ec.ser(ec.mul_g(kx), True).hex(), "chain": case["chain"], "depth": case["depth"], "index": case["index"]}
+            if case["fp"]:
+                start["fp"] = case["fp"]
+            r = ctx.call({"op": "bip32", "start": {kind: start}, "steps": [{"reparse": True}]})
+            ctx.ev()
+            if "ok" not in r or len(r["ok"]) != 2:
+                ctx.viol("extended key built through the constructor (%s) could not be serialised and parsed back" % kind, {"resp": str(r)[:300]})
+                continue
+            if cmp_node(ctx, r["ok"][0], node, "constructor %s" % kind):
+                cmp_node(ctx, r["ok"][1], node, "string round-trip of a constructor-built key (%s, %s fingerprint, depth %s)" % (kind, "zero" if fp == b"\x00" * 4 else "non-zero", "0" if case["depth"] == 0 else ">0"))
+    elif k == "badpath":
+        ctx.hit("badpath")
+        for kind in ("seed", "xpub_seed"):
+            r = ctx.call({"op": "bip32", "start": {kind: case["seed"]}, "steps": [{"path": case["path"]}]})
+            ctx.ev()
+            if "ok" not in r:
+                ctx.viol("derive_from_path with an out-of-range component fails abnormally", {"path": case["path"], "resp": str(r)[:200]})
+            elif len(r["ok"]) != 2 or "err" not in r["ok"][1]:
+                ctx.viol("derive_from_path accepts a component >= 2^31 (%s key)" % ("private" if kind == "seed" else "public"), {"path": case["path"], "resp": str(r["ok"][1:])[:200]})
     elif k == "valid":
         r = ctx.call({"op": "bip32", "start": {case["kind"]: case["s"]}, "steps": [{"reparse": True}]})
         ctx.ev()
